@@ -26,6 +26,13 @@
                        DESYNCHRONISED from there on
              "torn"    the first `size` bytes of a record (a crash cut the unsynced tail);
                        identity dropped: [id 0, kind "torn", h 0]
+             "hdr" / "pay"  the first / the remaining bytes of a record that reached the group in two
+                       Writes with something (a rotation) in between: contiguous in one file they
+                       ARE the record (Stitch); split over two files only a reader that runs across
+                       the file boundary sees the record, each file on its own is damaged
+   A CHUNK is what one Group.Write call carries: a record plus ck = "all" | "hdr" | "pay" (size = bytes
+   of the chunk).  The real encoder makes exactly one chunk per record (Chunks); that a record is
+   appended atomically with respect to RotateFile rests on this and on nothing else.
    The WAL state is one record w:
         disk   sequence of [idx, items], ascending idx: the rotated files <head>.NNN that exist
         hs     items of the head file that are durable (written and fsync'ed)
@@ -56,6 +63,7 @@ CONSTANTS
   Weak_DecoderAcceptsBadCRC, \* WALDecoder does not compare checksums
   Weak_PruneNewest,       \* checkTotalSizeLimit removes the newest rotated file instead of the oldest
   Weak_IndexWidth3Only,   \* readGroupInfo recognises only names with exactly three digits (<head>.NNN)
+  Weak_RecordInTwoGroupWrites, \* WALEncoder.Encode hands a record to the group in two Writes: header (crc+length), then payload
   WidthLimit              \* first index whose name is wider than three digits: 1000 (filePathForIndex uses %03d, a MINIMUM width)
 
 MaxFilesToRemove == 4   \* group.go
@@ -72,7 +80,29 @@ RecOf(it)     == [id |-> it.id, kind |-> it.kind, h |-> it.h, size |-> it.size]
 RECURSIVE SumSize(_)
 SumSize(s) == IF Len(s) = 0 THEN 0 ELSE s[1].size + SumSize(Tail(s))
 
-GoodItems(rs) == [k \in 1..Len(rs) |-> GoodItem(rs[k])]
+\* ---- chunks: WALEncoder.Encode -> enc.wr.Write(...) calls
+Chunk(r, ck, n) == [id |-> r.id, kind |-> r.kind, h |-> r.h, size |-> n, ck |-> ck]
+Whole(r)  == Chunk(r, "all", r.size)
+Chunks(r) == IF Weak_RecordInTwoGroupWrites THEN <<Chunk(r, "hdr", HdrLen), Chunk(r, "pay", r.size - HdrLen)>>
+             ELSE <<Whole(r)>>
+ChunkItem(c) == MkItem(c, IF c.ck = "all" THEN "good" ELSE c.ck)
+GoodItems(cs) == [k \in 1..Len(cs) |-> ChunkItem(cs[k])]
+\* header and payload of one record next to each other are that record
+RECURSIVE Stitch(_)
+Stitch(s) ==
+  IF Len(s) < 2 THEN s
+  ELSE IF s[1].st = "hdr" /\ s[2].st = "pay" /\ s[1].id = s[2].id
+       THEN <<[s[1] EXCEPT !.st = "good", !.size = s[1].size + s[2].size]>> \o Stitch(SubSeq(s, 3, Len(s)))
+       ELSE <<s[1]>> \o Stitch(Tail(s))
+\* bytes `add` appended to the head file behind its synced part hs and unsynced part hu
+PutHead(hs, hu, add) ==
+  LET u == Stitch(hu \o add) IN
+  IF Len(hs) > 0 /\ Len(u) > 0 /\ hs[Len(hs)].st = "hdr" /\ u[1].st = "pay" /\ hs[Len(hs)].id = u[1].id
+  THEN [hs |-> SubSeq(hs, 1, Len(hs) - 1),
+        hu |-> <<[u[1] EXCEPT !.st = "good", !.size = hs[Len(hs)].size + u[1].size]>> \o Tail(u)]
+  ELSE [hs |-> hs, hu |-> u]
+RECURSIVE Flat(_)
+Flat(ss) == IF Len(ss) = 0 THEN << >> ELSE ss[1] \o Flat(Tail(ss))
 WSetOf(s) == {s[k] : k \in 1..Len(s)}
 IdsOf(items) == {items[k].id : k \in {j \in 1..Len(items) : items[j].st = "good"}}
 WMin(S) == CHOOSE x \in S : \A y \in S : x <= y
@@ -168,7 +198,11 @@ Dec(s, i, rsy) ==
        IN CASE it.st = "good"   -> <<it>> \o Dec(s, i + 1, rsy)
             [] it.st = "badcrc" -> (IF Weak_DecoderAcceptsBadCRC THEN <<Invented>> ELSE <<ErrOut>>) \o Dec(s, i + 1, rsy)
             [] it.st = "badlen" -> <<ErrOut>> \o resync
-            [] it.st = "torn"   -> IF i = Len(s)
+            [] it.st = "hdr" /\ i < Len(s) /\ s[i + 1].st = "pay" /\ s[i + 1].id = it.id
+                                \* a reader that runs across the file boundary puts the two together
+                                -> <<[it EXCEPT !.st = "good", !.size = it.size + s[i + 1].size]>> \o Dec(s, i + 2, rsy)
+            [] OTHER            -> \* "torn", or a lone "hdr" / "pay": a fragment
+                                   IF i = Len(s)
                                    THEN (IF TornClass(it.size) = "crc" THEN << >> ELSE <<ErrOut>>)
                                    ELSE <<ErrOut>> \o resync
 
@@ -220,28 +254,31 @@ Search(w, h, ignore, rsy) == SearchFrom(w, h, ignore, rsy, w.gmax, -1)
 \* ------------------------------------------------------------------ writing
 (* Group.Write -> bufio.Writer.Write(p): while len(p) > Available(): if the buffer is empty the
    rest of p goes straight to the file, otherwise the buffer is topped up and flushed.       *)
-WriteRec(w, r) ==
+ToFile(w, add) == LET ph == PutHead(w.hs, w.hu, add) IN [w EXCEPT !.hs = ph.hs, !.hu = ph.hu]
+WriteRec(w, r) ==        \* r: one chunk = one Group.Write call
   LET B == Buffered(w) IN
   IF r.size <= w.cap - B THEN [w EXCEPT !.buf = Append(w.buf, r)]
-  ELSE IF B = 0 THEN [w EXCEPT !.hu = Append(w.hu, GoodItem(r))]
+  ELSE IF B = 0 THEN ToFile(w, <<ChunkItem(r)>>)
   ELSE LET first == w.cap - B          \* bytes of r that go out with the flush
            rem   == r.size - first
        IN IF rem > w.cap
-          THEN [w EXCEPT !.hu = w.hu \o GoodItems(w.buf) \o <<GoodItem(r)>>, !.buf = << >>, !.part = 0]
-          ELSE [w EXCEPT !.hu = w.hu \o GoodItems(w.buf), !.buf = <<r>>, !.part = first]
+          THEN [ToFile(w, GoodItems(w.buf) \o <<ChunkItem(r)>>) EXCEPT !.buf = << >>, !.part = 0]
+          ELSE [ToFile(w, GoodItems(w.buf)) EXCEPT !.buf = <<r>>, !.part = first]
+\* the bufio buffer handed to the file, no fsync (first half of FlushAndSync, or a full buffer)
+FlushOnly(w) == [ToFile(w, GoodItems(w.buf)) EXCEPT !.buf = << >>, !.part = 0]
 
 \* Group.FlushAndSync: headBuf.Flush(); Head.Sync()
 FlushSync(w) ==
   IF Weak_SyncNoFlush THEN [w EXCEPT !.hs = w.hs \o w.hu, !.hu = << >>]
-  ELSE IF Weak_SyncNoFsync THEN [w EXCEPT !.hu = w.hu \o GoodItems(w.buf), !.buf = << >>, !.part = 0]
-  ELSE [w EXCEPT !.hs = w.hs \o w.hu \o GoodItems(w.buf), !.hu = << >>, !.buf = << >>, !.part = 0]
+  ELSE IF Weak_SyncNoFsync THEN FlushOnly(w)
+  ELSE [w EXCEPT !.hs = Stitch(w.hs \o w.hu \o GoodItems(w.buf)), !.hu = << >>, !.buf = << >>, !.part = 0]
 
 \* ids a nil return of FlushAndSync acknowledges
 AckedBy(w) == {w.hu[k].id : k \in 1..Len(w.hu)} \cup {w.buf[k].id : k \in 1..Len(w.buf)}
 
 \* Group.RotateFile: Flush, Sync, close, rename head -> <head>.<maxIndex>, maxIndex++
 Rotate(w) ==
-  LET items == w.hs \o w.hu \o (IF Weak_RotateDropsBuf THEN << >> ELSE GoodItems(w.buf)) IN
+  LET items == Stitch(w.hs \o w.hu \o (IF Weak_RotateDropsBuf THEN << >> ELSE GoodItems(w.buf))) IN
   [w EXCEPT !.disk = InsertFile(w.disk, [idx |-> w.gmax, items |-> items]),
             !.hs = << >>, !.hu = << >>, !.buf = << >>, !.part = 0, !.gmax = w.gmax + 1]
 
@@ -299,7 +336,7 @@ WroteEH0(w) == HeadFileSize(w) = 0 /\ (Weak_EH0OnEmptyHead \/ GInfo(w).max = 0) 
 OpenWal(w, eh0) ==
   LET gi == GInfo(w)
       w1 == [w EXCEPT !.gmin = gi.min, !.gmax = gi.max, !.open = TRUE, !.buf = << >>, !.part = 0]
-  IN IF WroteEH0(w) THEN FlushSync(WriteRec(w1, eh0)) ELSE w1
+  IN IF WroteEH0(w) THEN FlushSync(WriteRec(w1, Whole(eh0))) ELSE w1
 
 (* catchupReplay(csH): res = "hasend"   #ENDHEIGHT csH is in the WAL         (plain error)
                              "nomarker" #ENDHEIGHT csH-1 not found           (plain error)
@@ -347,13 +384,15 @@ StopWal(w) == [FlushSync(w) EXCEPT !.open = FALSE]
 
 \* ------------------------------------------------------------------ what the properties talk about
 AllFiles(w) == [k \in 1..Len(w.disk) |-> w.disk[k].items] \o <<HeadView(w)>>
-OnDiskIds(w) == UNION {IdsOf(AllFiles(w)[k]) : k \in 1..Len(w.disk) + 1}
-DurableIds(w) == UNION ({IdsOf(w.disk[k].items) : k \in 1..Len(w.disk)} \cup {IdsOf(w.hs)})
+\* the log as the reader of the whole group sees it (a record split over two files counts)
+WholeLog(w) == Stitch(Flat(AllFiles(w)))
+OnDiskIds(w) == IdsOf(WholeLog(w))
+DurableIds(w) == IdsOf(Stitch(Flat([k \in 1..Len(w.disk) |-> w.disk[k].items] \o <<w.hs>>)))
 AllClean(w) == \A k \in 1..Len(w.disk) + 1 : SoloClean(AllFiles(w)[k])
 \* the natural reader: a group reader opened at the lowest index, strict
 MinReadIndex(w) == IF Idxs(w) = {} THEN w.gmax ELSE IF WMin(Idxs(w)) < w.gmax THEN WMin(Idxs(w)) ELSE w.gmax
-EHOnDisk(w, h) == \E k \in 1..Len(w.disk) + 1 : \E p \in 1..Len(AllFiles(w)[k]) :
-                     LET it == AllFiles(w)[k][p] IN it.st = "good" /\ it.kind = "eh" /\ it.h = h
+EHOnDisk(w, h) == \E p \in 1..Len(WholeLog(w)) :
+                     LET it == WholeLog(w)[p] IN it.st = "good" /\ it.kind = "eh" /\ it.h = h
 \* the marker is reachable by a reader that starts at the beginning of its own file
 EHReachable(w, h) == \E k \in 1..Len(w.disk) + 1 : \E p \in 1..Len(AllFiles(w)[k]) :
                      LET f == AllFiles(w)[k] IN
